@@ -350,6 +350,46 @@ def handleGitFiles (req : Json) : Except String Json := do
     ("pairs", .arr (pairs.map (fun (a, b) => Json.arr #[encStream a, encStream b])).toArray),
     ("cwd", .arr (w.cwd.map Json.str).toArray)])])
 
+open Nbdime.Web in
+def decArg : Json → Except String Arg
+  | .str "readable" => pure .readable
+  | .str "unreadable" => pure .unreadable
+  | .str "notString" => pure .notString
+  | _ => throw "bad arg"
+
+open Nbdime.Web in
+def decWebReq : Json → Except String Req
+  | .str "page" => pure .page
+  | .str "apiClose" => pure .apiClose
+  | .str "unknown" => pure .unknown
+  | .arr #[.str "apiDiff", .bool ok, b, r] => do pure (.apiDiff ok (← decArg b) (← decArg r))
+  | .arr #[.str "apiMerge", .bool ok, b, l, r] => do pure (.apiMerge ok (← decArg b) (← decArg l) (← decArg r))
+  | .arr #[.str "apiStore", .str "malformedJson", _] => pure (.apiStore .malformedJson)
+  | .arr #[.str "apiStore", .str "missingMerged", .bool f] => pure (.apiStore (.missingMerged f))
+  | .arr #[.str "apiStore", .str "notSerialisable", .bool f] => pure (.apiStore (.notSerialisable f))
+  | .arr #[.str "apiStore", .str "notebook", .bool f] => pure (.apiStore (.notebook f))
+  | j => throw s!"bad web request {j.compress}"
+
+open Nbdime.Web in
+def handleWeb (req : Json) : Except String Json := do
+  let pj := req.getObjValD "params"
+  let cwd ← pj.getObjValAs? String "cwd"
+  let out := optStr (pj.getObjValD "out")
+  let closable := match pj.getObjVal? "closable" with
+    | .ok (.bool b) => b
+    | _ => false
+  let sf := match req.getObjVal? "serialiseFirst" with
+    | .ok (.bool false) => false
+    | _ => true
+  let reqs ← match req.getObjVal? "reqs" with
+    | .ok (.arr xs) => xs.toList.mapM decWebReq
+    | _ => throw "web.reqs"
+  let enc := fun (r : Resp) => Json.mkObj [("status", toJson r.status), ("stops", .bool r.stops),
+    ("effects", .arr (r.effects.map (fun e => match e with
+      | .truncate p => Json.arr #[.str "truncate", .str p]
+      | .write p => Json.arr #[.str "write", .str p])).toArray)]
+  pure (Json.mkObj [("ok", .arr (reqs.map (fun r => enc (Nbdime.Web.handle sf ⟨cwd, out, closable⟩ r))).toArray)])
+
 def handle (req : Json) : Except String Json := do
   let cmd ← req.getObjValAs? String "cmd"
   match cmd with
@@ -360,6 +400,7 @@ def handle (req : Json) : Except String Json := do
   | "gitcfg" => handleGitCfg req
   | "cfg" => handleCfg req
   | "gitfiles" => handleGitFiles req
+  | "web" => handleWeb req
   | "hist" =>
       match req.getObjVal? "calls" with
       | .ok (.arr xs) => do
